@@ -23,7 +23,7 @@ def gen_scenario(rng, profile="mixed"):
     mutators = []
     for _ in range(nthreads):
         kind = rng.random()
-        if kind < 0.55:
+        if kind < (0.9 if profile == "mutators" else 0.55):
             mine = []
             for _ in range(rng.randint(1, 3)):
                 r = rng.random()
@@ -32,7 +32,7 @@ def gen_scenario(rng, profile="mixed"):
                     lines.append("t%d %s %d %d" % (tid, rng.choice(["reg", "reg", "regu"]), sg, tag)); mine.append(tag); tag += 1
                 elif r < 0.8 and (known or mine):
                     lines.append("t%d unreg @%d" % (tid, rng.choice(known + mine)))
-                elif r < 0.88:
+                elif r < (0.95 if profile == "mutators" else 0.88):
                     lines.append("t%d unregsig %d" % (tid, sg))
                 elif r < 0.94:
                     lines.append("t%d %s %d %d" % (tid, rng.choice(["reg", "regu"]), rng.choice([9, 19, 100, 0, -1, 65]), tag)); tag += 1
@@ -40,11 +40,15 @@ def gen_scenario(rng, profile="mixed"):
                     lines.append("t%d reg %d %d" % (tid, rng.choice([4, 8, 11]), tag)); tag += 1
             mutators.append(tid)
         else:
-            for _ in range(rng.randint(1, 3)):
+            # many short deliveries: most land before the disposition switches (`notours`), the rest
+            # spread over the registration's steps
+            for _ in range(rng.randint(1, 3) if profile != "chain" else rng.randint(3, 7)):
                 lines.append("t%d deliver %d" % (tid, rng.choice(sigs)))
         tid += 1
     for h in mutators:
-        if rng.random() < 0.6:
+        # deliveries nested on the mutator's own thread start at a uniformly chosen step of it
+        k = (1 if rng.random() < 0.6 else 0) if profile != "chain" else rng.randint(1, 3)
+        for _ in range(k):
             lines.append("t%d nested t%d deliver %d" % (tid, h, rng.choice(sigs))); tid += 1
     if not mutators:
         lines.append("t%d reg %d %d" % (tid, sigs[0], tag)); tid += 1
@@ -83,7 +87,10 @@ def run_one(scenario):
         return {"scenario": scenario, "impl": out, "model": [], "schedule": [], "status": "END crash rc=%d %s" % (rc, err[-200:]), "model_end": "END ?"}
     sched = next((l for l in out if l.startswith("SCHEDULE")), "SCHEDULE")
     status = next((l for l in out if l.startswith("END")), "END ?")
-    obs = canon([l for l in out if not l.startswith("SCHEDULE") and not l.startswith("END")])
+    blocked = [l for l in out if l.startswith("BLOCKED")]
+    if blocked:
+        status += " (" + "; ".join(blocked) + ")"
+    obs = canon([l for l in out if not l.startswith("SCHEDULE") and not l.startswith("END") and not l.startswith("BLOCKED")])
     dtext = "\n".join([l for l in scenario if not l.startswith("schedule")] + ["schedule " + " ".join(sched.split()[1:]), "---"]) + "\n"
     mout = core.run_driver("regconc", dtext, timeout=120)
     mobs = [l for l in mout if not l.startswith("END") and l != "---"]
@@ -149,7 +156,7 @@ class Spec:
 
 def monitors(scenario, trace):
     """returns dict property -> list of problem strings, evaluated on one trace"""
-    probs = {"C01": [], "C02": [], "C03": [], "C04": []}
+    probs = {"C01": [], "C02": [], "C03": [], "C04": [], "C18": []}
     ev = parse(trace)
     spec = Spec(scenario)
     cur_call = {}                 # tid -> call text
